@@ -4,7 +4,7 @@ import build, tlc, behaviours, traces, ipcnames
 from core import Machinery, run_driver
 
 WRAPS = ["socket", "accept", "close", "fopen", "fclose", "opendir", "closedir", "mmap", "munmap", "sem_open", "sem_close", "sem_unlink",
-         "shm_open", "shm_unlink", "dlopen", "dlclose", "poll", "getsockname", "getaddrinfo", "freeaddrinfo"]
+         "shm_open", "shm_unlink", "dlopen", "dlclose", "poll", "getsockname", "getaddrinfo", "freeaddrinfo", "bind", "listen", "connect", "setsockopt", "getsockopt", "getpeername", "ftruncate", "fcntl", "pthread_create"]
 # kind -> can the creation fail in a controlled way
 KINDS = {"tree": False, "hashtable": False, "list": False, "ini": True, "hash": True, "error": False, "dir": True, "sockaddr": True, "tcp": True,
          "tcp_timeout": False, "sock_intr": False, "from_fd": True, "accept_fail": False, "shm_close_intr": False, "sock_close_intr": False, "bind_used": False, "udp": False, "sem": True, "sem2": False, "shm": True, "shm_same": False, "shm_smaller": False,
@@ -51,6 +51,12 @@ def run(ctx):
                 if slot is not None:
                     lines.append("rel %d" % slot)
         lines += ["relall", "quiesce"]
+    # fault enumeration over system calls: the K-th system call inside a creation fails; whatever came into being is freed; nothing may remain
+    SYSKINDS = ["tcp", "udp", "tcp_timeout", "bind_used", "from_fd", "shm", "shm_same", "shm_smaller", "shmbuf", "sem", "sem2", "dir", "ini", "loader",
+                "thread", "thread_named", "thread_detached", "sockaddr"]
+    for k in SYSKINDS:
+        for n in range(1, 15 if ctx.quick else 31):
+            lines += ["scenario", "failsys %d" % n, "acq %s ok" % k, "relall", "quiesce"]
     # longer random programs
     for _ in range(10 if ctx.quick else 1500):
         lines.append("scenario")
